@@ -5,6 +5,8 @@ design     MC_Centrality: the line-graph / bipartite betweenness and closeness o
            equivariance, path-length identities, temporal averages.
 code->spec oracle mode (Oracle_C20): TLC decides the key sets of the returned dictionaries and emits the
            exact rationals and the integer structures; floats are compared on this side.
+           A fifth of the random static hypergraphs and two thirds of the connected uniform ones are reached by EDITING an
+           object on which every centrality has already been computed (per-object memoisation).
 """
 import concurrent.futures as cf
 import contextlib
@@ -362,7 +364,7 @@ ASSUMPTIONS = (
     "snapshots of a temporal hypergraph may or may not carry the nodes without hyperedges at that time: both readings accepted",
     "the index -> node correspondence of the sub-hypergraph centrality vector is the library's own adjacency_matrix(return_mapping=True)",
     "unweighted hypergraphs; s in 1..3; line graphs of at most 7 hyperedges, bipartite graphs of at most 11 vertices",
-    "history of the OBJECT: a fifth of the random static hypergraphs and two thirds of the connected uniform ones are reached by editing "
+    "history of the OBJECT: a fifth of the random static hypergraphs and two thirds of the connected uniform ones and a sixth of the temporal ones are reached by editing "
     "(remove_edge / add_edge, same nodes) an object on which every centrality has already been computed; the statement speaks about the "
     "hypergraph as it is, so the observation is judged like any other against the state read back through the public API",
     "node labels are integers and strings (the families of harness.binding plus strings containing E); tuple-valued labels are not used: the "
@@ -494,6 +496,12 @@ def temporal_specs(tier, seed, rng):
             te.add((rng.choice(times), e0))
         specs.append({"kind": "temporal", "n": n, "timed_edges": [[tm, list(e)] for tm, e in sorted(te)],
                       "labels": FAMILIES[tf[i % 5]](n), "ss": [1, 2] if quick else [1, 2, 3], "case_seed": seed * 1000303 + i})
+        if i % 6 == 4:
+            # the object had other timed hyperedges when the averaged centralities were first computed on it
+            prev = {(tm, e) for tm in rng.sample([0, 1, 2, 3, 5, 9], rng.randint(1, 3))
+                    for e in (rand_edges(rng, n, min(5, 10 - n), 4) or [tuple(sorted(rng.sample(range(1, n + 1), 2)))])}
+            if prev != te:
+                specs[-1]["prev_timed_edges"] = [[tm, list(e)] for tm, e in sorted(prev)]
     return specs
 
 
@@ -502,11 +510,27 @@ def temporal_validate(res, specs, procs=8):
     for sp in specs:
         rng = random.Random(sp["case_seed"])
         b = Binding("temp", sp["labels"], rng)
-        obj = build_temporal(b, [(tm, tuple(e)) for tm, e in sp["timed_edges"]], rng)
+        cur = [(tm, tuple(e)) for tm, e in sp["timed_edges"]]
+        if sp.get("prev_timed_edges") is not None:
+            prev = [(tm, tuple(e)) for tm, e in sp["prev_timed_edges"]]
+            obj = build_temporal(b, prev, rng)
+            observe_temporal(b, obj, sp["ss"])
+            ops = [("remove", x) for x in sorted(set(prev) - set(cur))] + [("add", x) for x in sorted(set(cur) - set(prev))]
+            rng.shuffle(ops)
+            with captured():
+                for op, (tm, e) in ops:
+                    if op == "remove":
+                        obj.remove_edge(b._tuple(e), tm)
+                    else:
+                        obj.add_edge(b._tuple(e), tm)
+        else:
+            obj = build_temporal(b, cur, rng)
         c, log = observe_temporal(b, obj, sp["ss"])
         cases.append(c)
         logs.append(log)
         descr.append({"n": sp["n"], "timed_hyperedges": sp["timed_edges"], "labels": sp["labels"], "temporal": True})
+        if sp.get("prev_timed_edges") is not None:
+            descr[-1]["object_edited_after_earlier_calls_from"] = sp["prev_timed_edges"]
     v = O.run_oracle("Oracle_C20", cases, {"Kind": "temp"}, procs=procs)
     tl = dict(v["rejects"])
     nrej = 0
@@ -551,6 +575,7 @@ def run(tier, seed):
             s_centrality_dicts_compared=sum(len(l["edge"]) + len(l["node"]) for l in logs + tlogs),
             values_compared=sum(len(r["values"]) for l in logs + tlogs for r in l["edge"] + l["node"]),
             subhypergraph_centrality_vectors=sum(1 for l in logs if "shc" in l),
+            temporal_on_edited_objects=sum(1 for d in tdescr if d.get("object_edited_after_earlier_calls_from") is not None),
             static_on_edited_objects=sum(1 for d in descr if d.get("object_edited_after_earlier_calls_from") is not None),
             eigen_on_edited_objects=sum(1 for d, l in zip(descr, logs) if "eig" in l and d.get("object_edited_after_earlier_calls_from") is not None),
             traces_validated_against_impl=len(cases) + len(tcases), validator_states=v["states"] + tv["states"], **stats)
